@@ -493,4 +493,8 @@ def run_cfg(ck, cfg):
 def run(ck):
     run_cfg(ck, "K1")
     run_cfg(ck, "K2")
+    # allocation, failure and release decisions are those of the reference
+    from .. import condparity as _cp
+    ck.floor("SIB/ref-conditions", _cp.check(ck, prog("K1"), "SIB/ref-conditions", only={"inflate.c:inflateEnd", "deflate.c:deflateEnd", "inflate.c:inflateInit2",
+             "deflate.c:deflateInit2", "inflate.c:inflateCopy", "deflate.c:deflateCopy", "gzread.c:gzclose_r", "gzwrite.c:gzclose_w"}), 20)
     ck.assumptions += ["rustc MIR", "listed infeasible exits and discard exceptions (one reason each)", "K1 = Rust allocator, K2 = C allocator"]
